@@ -1,7 +1,93 @@
 import ScVerif.Base.Line
-/-! Driver handler for C03 (stub: replaced by the property's owner). -/
-namespace ScVerif.C03
+import ScVerif.C03.Model
+/-!
+Driver handler for C03.  Messages are integers.
 
-def handle (_toks : List String) : String := "!bad-op"
+Request: `run <init> <progs> <updatesOnly> <sched>`
+* init   `-` or `id:val,...`
+* progs  writers separated by `|`, operations by `;` (empty writer `-`): `u/<id>/s<k>` set, `u/<id>/a<k>` add to
+         the old value (absent = 0), `u/<id>/c<e>.<v>` set to v if the current value is e (else no commit), `d/<id>`
+* updatesOnly  one `0`/`1` per subscriber (`-` for none)
+* sched  `-` or comma separated steps: `c<t>` commit of writer t, `n<k>` snapshot / `d<k>` next delivery of the
+         k-th publication in flight (commit order), `s<i>` subscribe of subscriber i
+
+Answer: `store=…|S0=<registered>:<view>:<events>|…|pubs=<in flight>|lock=<0|1>|ord=<0|1>`
+-/
+namespace ScVerif.C03
+open ScVerif.Line
+
+def parseF? (s : String) : Option (Option Int → Option Int) :=
+  if s.startsWith "s" then (parseInt? (s.drop 1).toString).map (fun k => fun _ => some k)
+  else if s.startsWith "a" then (parseInt? (s.drop 1).toString).map (fun k => fun old => some (old.getD 0 + k))
+  else if s.startsWith "c" then
+    match ((s.drop 1).toString).splitOn "." with
+    | [e, v] => do
+      let e ← parseInt? e
+      let v ← parseInt? v
+      pure (fun old => if old = some e then some v else none)
+    | _ => none
+  else none
+
+def parseOp? (s : String) : Option (WOp Int) :=
+  match s.splitOn "/" with
+  | ["u", id, f] => do
+    let id ← parseNat? id
+    let f ← parseF? f
+    pure (.upd id f)
+  | ["d", id] => do
+    let id ← parseNat? id
+    pure (.del id (fun _ => true))
+  | _ => none
+
+def parseProg? (s : String) : Option (List (WOp Int)) :=
+  if s = "-" || s = "" then some [] else (s.splitOn ";").mapM parseOp?
+
+def parseInit? (s : String) : Option (List (Nat × Int)) :=
+  if s = "-" || s = "" then some []
+  else (s.splitOn ",").mapM (fun kv =>
+    match kv.splitOn ":" with
+    | [k, v] => do
+      let k ← parseNat? k
+      let v ← parseInt? v
+      pure (k, v)
+    | _ => none)
+
+def parseAct? (s : String) : Option Act :=
+  let n := parseNat? (s.drop 1).toString
+  if s.startsWith "c" then n.map .commit
+  else if s.startsWith "n" then n.map .snap
+  else if s.startsWith "d" then n.map .deliver
+  else if s.startsWith "s" then n.map .sub
+  else none
+
+def parseSched? (s : String) : Option (List Act) :=
+  if s = "-" || s = "" then some [] else (s.splitOn ",").mapM parseAct?
+
+def parseUo? (s : String) : Option (List Bool) :=
+  if s = "-" then some [] else s.toList.mapM (fun ch => if ch = '1' then some true else if ch = '0' then some false else none)
+
+def showView (v : Nat → Option Int) : String :=
+  ",".intercalate ((List.range 10).filterMap (fun i => (v i).map (fun x => s!"{i}={x}")))
+
+def showEv (e : Event Int) : String :=
+  match e.new with
+  | some v => s!"{e.id}={v}"
+  | none => s!"{e.id}=nil"
+
+def handle (toks : List String) : String :=
+  match toks with
+  | ["run", init, progs, uo, sched] =>
+    match parseInit? init, (progs.splitOn "|").mapM parseProg?, parseUo? uo, parseSched? sched with
+    | some init, some progs, some uo, some sched =>
+      let s₀ : Nat → Option Int := fun i => (init.find? (fun kv => kv.1 == i)).map (·.2)
+      let c₀ : Cfg Int := initCfg s₀ (fun t => progs.getD t []) (fun s => uo.getD s false)
+      let c := run c₀ sched
+      let subs := (List.range uo.length).map (fun s =>
+        let sb := c.subs s
+        s!"S{s}={showBool sb.registered}:{showView sb.view}:" ++ ";".intercalate (sb.evs.map showEv))
+      s!"store={showView c.store}|" ++ "|".intercalate subs ++
+        s!"|pubs={c.pubs.length}|lock={if c.lock.isSome then 1 else 0}|ord={if ordered c₀ sched then 1 else 0}"
+    | _, _, _, _ => "!bad-op"
+  | _ => "!bad-op"
 
 end ScVerif.C03
